@@ -89,7 +89,7 @@ static reproc_redirect mk_redirect(jv *r)
   d.type = (REPROC_REDIRECT) r->a[0]->i;
   d.handle = (int) r->a[1]->i;
   long f = r->a[2]->i;
-  d.file = f == 0 ? NULL : f == 1 ? stdout : f == 2 ? stderr : fdopen((int) f, "w");
+  d.file = f == 0 ? NULL : f == 1000 ? stdin : f == 1 ? stdout : f == 2 ? stderr : fdopen((int) f, "w");   /* 1000 = a FILE on descriptor 0 */
   d.path = r->a[3]->t == J_STR && r->a[3]->s[0] ? mp(r->a[3]->s) : NULL;
   return d;
 }
@@ -111,7 +111,7 @@ static int do_start(reproc_t *p, jv *st, jv *exp, jv *v, int idx)
   op.env.extra = envx;
   op.redirect.in = mk_redirect(j_get(o, "rin")); op.redirect.out = mk_redirect(j_get(o, "rout")); op.redirect.err = mk_redirect(j_get(o, "rerr"));
   op.redirect.parent = j_int(o, "parent", 0) != 0; op.redirect.discard = j_int(o, "discard", 0) != 0;
-  long f = j_int(o, "file", 0); op.redirect.file = f ? fdopen((int) f, "w") : NULL;
+  long f = j_int(o, "file", 0); op.redirect.file = f == 1000 ? stdin : f ? fdopen((int) f, "w") : NULL;
   const char *pth = j_str(o, "path", ""); op.redirect.path = pth[0] ? mp(pth) : NULL;
   long in = j_int(o, "input", -1);
   static uint8_t data[64]; if (in >= 0) { op.input.data = data; op.input.size = (size_t) in; } else if (in == -2) { op.input.size = 3; }
